@@ -188,6 +188,9 @@ type world struct {
 	}
 	clockNow   time.Time
 	clockReads []int64
+	// checkIns: when each node last registered or sent a keep-alive that was accepted, by the
+	// harness's own count (real time, moved back by every scripted passage of time)
+	checkIns   map[string]time.Time
 	useRealClk bool
 
 	mu       sync.Mutex
@@ -199,10 +202,11 @@ type world struct {
 	settleLog []settleCall
 	// settleHook (optional) is called at the start of settlement call number n (from 0), outside
 	// the lock; it may block, and decides whether that settlement succeeds
-	settleHook func(n int) bool
-	settleN    int
-	nonce     int64
-	tr        *traceStore // non-nil when the store calls of the services are recorded
+	settleHook    func(n int) bool
+	settleN       int
+	nonce         int64
+	tr            *traceStore // non-nil when the store calls of the services are recorded
+	updateCtxDone bool        // keep-alives arrive with a context that is already done (the sender hung up)
 }
 
 // traced runs f and returns the store calls the services made meanwhile (nil when not recording).
@@ -246,6 +250,7 @@ type worldCfg struct {
 	FeeFresh   bool `json:"fee_returns_new_value,omitempty"` // the fee function returns the new total in a fresh value instead of changing its argument
 	Settle     bool
 	MaxHosts   int
+	CtxDone    bool                          `json:"keepalives_arrive_with_done_context,omitempty"`
 	wrap       func(store.Store) store.Store // optional interposer between the services and the driver
 	trace      bool                          // record every store call the services make (C10 call traces)
 }
@@ -325,6 +330,7 @@ func newWorld(cfg worldCfg) *world {
 		fatal("register: %v", err)
 	}
 	w.nonce = time.Now().UnixNano()
+	w.updateCtxDone = cfg.CtxDone
 	return w
 }
 
@@ -529,6 +535,8 @@ func peerInfos(ids []string) []ethnode.PeerInfo {
 	return r
 }
 
+// updateCtx (optional) is the context keep-alives arrive with: a request whose sender has hung
+// up already arrives with a context that is done
 func (w *world) update(name string, peerNames []string, blk uint64) (*pool.UpdateResponse, error) {
 	id := nodeIDOf(name)
 	ids := make([]string, len(peerNames))
@@ -538,7 +546,13 @@ func (w *world) update(name string, peerNames []string, blk uint64) (*pool.Updat
 	req := pool.UpdateRequest{PeerInfo: peerInfos(ids), BlockNumber: blk}
 	nonce := w.nextNonce()
 	sig := w.sign(keyFor(name), "vipnode_update", id, nonce, req)
-	return w.pool.Update(context.Background(), sig, id, nonce, req)
+	cctx := context.Background()
+	if w.updateCtxDone {
+		c2, cancel := context.WithCancel(cctx)
+		cancel()
+		cctx = c2
+	}
+	return w.pool.Update(cctx, sig, id, nonce, req)
 }
 
 // idOfName maps logical names to real node ids; "unknown" is an id the pool never saw.
